@@ -30,6 +30,7 @@ type Term struct {
 	id   int    // per-path emission id (0 = not yet emitted)
 	gen  int    // path generation the id belongs to
 	size int    // rough DAG-size estimate (for inlining small terms)
+	h1, h2 uint64 // structural hash (0 = not computed)
 }
 
 func mask(w Sort) uint64 {
@@ -483,4 +484,39 @@ func (t *Term) write(sb *strings.Builder, ref func(*Term) (string, bool), depth 
 		a.write(sb, ref, depth+1)
 	}
 	sb.WriteByte(')')
+}
+
+// hash returns a 128-bit structural hash of the term (memoised).
+func (t *Term) hash() (uint64, uint64) {
+	if t.h1 != 0 || t.h2 != 0 {
+		return t.h1, t.h2
+	}
+	a, b := uint64(14695981039346656037), uint64(0x9e3779b97f4a7c15)
+	mix := func(x uint64) {
+		a ^= x
+		a *= 1099511628211
+		b = (b ^ x) * 0xff51afd7ed558ccd
+		b ^= b >> 33
+	}
+	for i := 0; i < len(t.op); i++ {
+		mix(uint64(t.op[i]))
+	}
+	mix(uint64(t.sort) + 1000)
+	mix(t.c)
+	for i := 0; i < len(t.name); i++ {
+		mix(uint64(t.name[i]))
+	}
+	mix(uint64(t.p1)<<20 ^ uint64(t.p2))
+	for _, x := range t.args {
+		x1, x2 := x.hash()
+		mix(x1)
+		mix(x2 ^ 0x5555)
+	}
+	if a == 0 && b == 0 {
+		a = 1
+	}
+	if t != tTrue && t != tFalse {
+		t.h1, t.h2 = a, b
+	}
+	return a, b
 }
